@@ -727,3 +727,59 @@ def _dtype(p):
             return _OP_BIN[p["op"]](ops[0], ops[1])
         raise ValueError(fn)
     return run
+
+
+# -------------------------------------------------------- C05 polynomial division
+class IterationCap(Exception):
+    """Raised by the loop observer when poly_divmod exceeds the iteration cap."""
+
+
+ITERATION_CAP = 200
+
+
+@action("polydiv")
+def _polydiv(p):
+    import numpoly
+    from numpoly.poly_function.divide import divmod as divmod_module
+    from .record import Extra, Multi
+    fn, sp = p["fn"], p.get("spelling", "function")
+
+    def run(a, b, *rest):
+        digs = []
+        original = divmod_module.get_division_candidate
+
+        def observer(x1, x2, *args, **kwargs):
+            dg = P.digest(x1)
+            if dg in digs:
+                # the loop is deterministic: a repeated running dividend proves non-termination
+                digs.append(dg)
+                raise IterationCap("running dividend repeated after %d iterations" % len(digs))
+            digs.append(dg)
+            if len(digs) > ITERATION_CAP:
+                raise IterationCap("poly_divmod exceeded %d iterations" % ITERATION_CAP)
+            return original(x1, x2, *args, **kwargs)
+        divmod_module.get_division_candidate = observer
+        capped = False
+        try:
+            try:
+                if sp == "function":
+                    out = {"divmod": numpoly.poly_divmod, "divide": numpoly.poly_divide,
+                           "remainder": numpoly.poly_remainder}[fn](a, b)
+                elif sp == "operator":
+                    out = divmod(a, b) if fn == "divmod" else (a / b if fn == "divide" else a % b)
+                else:
+                    raise ValueError(sp)
+            except IterationCap:
+                capped, out = True, None
+        finally:
+            divmod_module.get_division_candidate = original
+        if capped:
+            return Extra(None, digs=digs[:ITERATION_CAP], capped=True, iterations=len(digs))
+        value = Multi(out) if fn == "divmod" else out
+        return Extra(value, digs=digs, capped=False, iterations=len(digs))
+    return run
+
+
+@action("same")
+def _same(p):
+    return lambda a, b: None
